@@ -207,6 +207,32 @@ do_codec(char * l)
 		if (m != NULL) { char * e = strchr(m, '\n'); if (e) *e = 0; vt_raw("members", m + 3); }
 		vt_end();
 		free(key); free(doc);
+	} else if (strcmp(op, "pff") == 0) {
+		/* passphrase arriving through a named pipe (process substitution, /dev/stdin): not a regular file, size unknown */
+		char dname[] = "/tmp/verif_pff_XXXXXX", fname[64];
+		uint8_t * content = xbytes(a, &alen);
+		char * pw = NULL;
+		pid_t pid;
+		int rc, st;
+		if (mkdtemp(dname) == NULL) { free(content); return; }
+		snprintf(fname, sizeof(fname), "%s/p", dname);
+		if (mkfifo(fname, 0600) != 0) { rmdir(dname); free(content); return; }
+		vt_flush(); fflush(NULL);
+		if ((pid = fork()) == 0) {
+			int fd = open(fname, O_WRONLY);
+			size_t off = 0;
+			signal(SIGPIPE, SIG_IGN);
+			while (fd >= 0 && off < alen) { ssize_t w = write(fd, content + off, alen - off); if (w <= 0) break; off += (size_t)w; }
+			_exit(0);
+		}
+		rc = readpass_file(&pw, fname);
+		kill(pid, SIGKILL); waitpid(pid, &st, 0);
+		vt_begin("pf"); vt_str("in", strcmp(a, "-") ? a : ""); vt_int("rc", rc); vt_bool("fifo", 1);
+		if (rc == 0 && pw != NULL) vt_hex("pw", pw, strlen(pw));
+		vt_end();
+		if (rc == 0) free(pw);
+		unlink(fname); rmdir(dname);
+		free(content);
 	} else if (strcmp(op, "kf") == 0 || strcmp(op, "pf") == 0) {
 		/* key file / passphrase file with the given content */
 		char fname[] = "/tmp/verif_kf_XXXXXX";
